@@ -17,7 +17,9 @@ EXPLANATION = (
     'graph; R7 now imports ALL clauses of C01 (generation, castling guards, pawn geometry, promotions), since the move returned is one '
     'of the generated moves. R6 ignores the divisor assertion rustc emits for a non-zero literal divisor. R1 also demands that no '
     'candidate is removed from the root list before its emptiness test (retain / remove / truncate ...); path-limit fallback with '
-    'opaque move application. The parallel task body is the closure handed to the rayon adapter.'
+    'opaque move application. The parallel task body is the closure handed to the rayon adapter. R1: the non-emptiness guard of '
+    'pop().unwrap() is void if candidates are removed after the emptiness test, except retain(|m| !P(m)) under filter(|m| P(m)).count()'
+    ' < len with the same predicate call.'
 )
 ASSUMPTIONS = [
     "rayon's par_iter().map().collect() yields one scored entry per candidate (so a non-empty candidate list gives a non-empty vector)",
@@ -47,6 +49,51 @@ def search_outcomes(ctx):
         # paths of the routine are still enumerated and reported for what they do with the candidate list
         opaque2 = opaque | {CHESSMOVE + '::apply', CHESSMOVE + '::undo'} | {n for n in facts.fns if n.startswith('chess::evaluate::')}
         return Engine(facts, opaque=opaque2, readonly=ro, max_paths=20000).run(SEARCH)
+
+
+def _strip_rd(t):
+    while isinstance(t, tuple) and t and t[0] in ('ref', 'der'):
+        t = t[1]
+    if isinstance(t, tuple):
+        return tuple(_strip_rd(x) for x in t)
+    return t
+
+
+def unexcused_shrink(facts, o):
+    """the non-emptiness established by the emptiness test is lost again when candidates are removed afterwards (retain, truncate, ...) on
+    the way to the parallel scoring - unless what is removed provably leaves an element: `retain(|m| !P(m))` under the path condition
+    `list.iter().filter(|m| P(m)).count() < list.len()` with the same predicate call P."""
+    ev = o.events
+    stop = next((i for i, e in enumerate(ev) if e[0] == 'call' and 'par_iter' in e[1]), len(ev))
+    for i, e in enumerate(ev[:stop]):
+        nm = e[1].rsplit('::', 1)[-1] if e[0] in ('call', 'adapter') and isinstance(e[1], str) else None
+        if nm not in SHRINKERS:
+            continue
+        excused = False
+        if e[0] == 'adapter' and nm == 'retain':
+            c1 = next((x[1] for x in reversed(ev[:i]) if x[0] == 'closure'), None)
+            for a, v in o.conds:
+                if not (a[0] == 'bin' and a[1] == 'Lt' and is_true(v) and a[2][0] == 'call' and a[2][1].endswith('Iterator>::count') and a[3][0] == 'call' and a[3][1].endswith('::len')):
+                    continue
+                flt = a[2][2][0]
+                if not (flt[0] == 'call' and flt[1].endswith('Iterator::filter') and len(flt[2]) == 2 and flt[2][1][0] == 'agg' and flt[2][1][1] == 'closure'):
+                    continue
+                c0 = flt[2][1][2]
+                lst = _strip_rd(a[3][2][0])
+                if lst not in {_strip_rd(x) for x in subterms(flt[2][0])}:
+                    continue
+                try:
+                    r0 = [x for x in Engine(facts, opaque=set(facts.fns) - {c0}).run(c0) if x.kind != 'abort']
+                    r1 = [x for x in Engine(facts, opaque=set(facts.fns) - {c1}).run(c1) if x.kind != 'abort'] if c1 else []
+                except Exception:
+                    continue
+                if len(r0) == 1 and len(r1) == 1 and r0[0].kind == r1[0].kind == 'return' and r0[0].value[0] == 'call' and \
+                        r1[0].value[:2] == ('un', 'Not') and r1[0].value[2][0] == 'call' and r1[0].value[2][1] == r0[0].value[1] and \
+                        _strip_rd(r1[0].value[2][2]) == _strip_rd(r0[0].value[2]):
+                    excused = True
+        if not excused:
+            return True
+    return False
 
 
 def empty_guard(o):
@@ -131,7 +178,7 @@ def r1_declared_outcomes(ctx, rule_prefix='C07.R1'):
         if not pops:
             continue
         total += 1
-        if empty_guard(o) != 0:
+        if empty_guard(o) != 0 or unexcused_shrink(facts, o):
             unguarded += 1
     ctx.ob(rule, SEARCH, 'pop().unwrap() reachable with an empty root list' if unguarded else 'pop().unwrap() guarded by a non-empty root list',
            unguarded == 0 and total > 0, found={'panic paths': total, 'without a dominating non-empty test': unguarded},
